@@ -66,6 +66,7 @@ type WSConn struct {
 	net.Conn // the underlying TCP connection (addresses, deadlines)
 	C        *websocket.Conn
 
+	pong   chan struct{} // a pong control frame arrived (capacity 1)
 	wmu    sync.Mutex
 	mu     sync.Mutex
 	frames []WSFrame
@@ -87,7 +88,63 @@ func DialWS(url string) (*WSConn, error) {
 		_ = c.Close()
 		return nil, fmt.Errorf("websocket: negotiated subprotocol %q, want \"mqtt\"", sp)
 	}
-	return &WSConn{Conn: c.UnderlyingConn(), C: c}, nil
+	w := &WSConn{Conn: c.UnderlyingConn(), C: c, pong: make(chan struct{}, 1)}
+	c.SetPongHandler(func(string) error {
+		select {
+		case w.pong <- struct{}{}:
+		default:
+		}
+		return nil
+	})
+	return w, nil
+}
+
+// WriteFrame writes ONE websocket frame by hand on the underlying connection (the websocket
+// library only fragments a message when its write buffer fills): opcode 2/1 starts a binary/text
+// message, 0 continues it, fin marks the last frame of the message; 9 is a ping. Client frames
+// are masked with the given key.
+func (w *WSConn) WriteFrame(opcode byte, fin bool, p []byte, key [4]byte) error {
+	b := make([]byte, 0, len(p)+14)
+	b0 := opcode & 0x0f
+	if fin {
+		b0 |= 0x80
+	}
+	b = append(b, b0)
+	switch n := len(p); {
+	case n < 126:
+		b = append(b, 0x80|byte(n))
+	case n < 65536:
+		b = append(b, 0x80|126, byte(n>>8), byte(n))
+	default:
+		b = append(b, 0x80|127, 0, 0, 0, 0, byte(n>>24), byte(n>>16), byte(n>>8), byte(n))
+	}
+	b = append(b, key[:]...)
+	for i, x := range p {
+		b = append(b, x^key[i%4])
+	}
+	w.wmu.Lock()
+	defer w.wmu.Unlock()
+	_ = w.Conn.SetWriteDeadline(time.Now().Add(10 * time.Second))
+	_, err := w.Conn.Write(b)
+	return err
+}
+
+// PingSync sends a ping control frame (allowed in the middle of a fragmented message) and waits
+// for the pong: when it returns true the peer's reader has consumed every frame written before.
+func (w *WSConn) PingSync(timeout time.Duration) bool {
+	select {
+	case <-w.pong:
+	default:
+	}
+	if err := w.WriteFrame(9, true, nil, [4]byte{1, 2, 3, 4}); err != nil {
+		return false
+	}
+	select {
+	case <-w.pong:
+		return true
+	case <-time.After(timeout):
+		return false
+	}
 }
 
 // Read implements io.Reader over the concatenated message payloads. Only one goroutine may
